@@ -27,6 +27,16 @@ Flags == {"M", "O"}
 \* defines Ext and exports it, or has no EXPORTS clause), or not (LX is not given; LX does not define Ext; LX has an
 \* EXPORTS clause that does not list Ext)
 ImportFaults == {"import-ok", "import-ok-exports-all", "import-no-module", "import-no-symbol", "import-not-exported"}
+\* enumerations of 120 items (values 0..119 in order) in which item k repeats the VALUE (or the NAME) of item j;
+\* j = 0: no repetition.  The positions straddle the sizes at which a checker's table of seen values grows (50, 100).
+BigEnums == << [j |-> 0, k |-> 0, what |-> "v"], [j |-> 1, k |-> 120, what |-> "v"], [j |-> 50, k |-> 120, what |-> "v"], [j |-> 51, k |-> 120, what |-> "v"],
+              [j |-> 51, k |-> 52, what |-> "v"], [j |-> 52, k |-> 60, what |-> "v"], [j |-> 100, k |-> 120, what |-> "v"], [j |-> 101, k |-> 120, what |-> "v"],
+              [j |-> 102, k |-> 103, what |-> "v"], [j |-> 102, k |-> 120, what |-> "v"], [j |-> 119, k |-> 120, what |-> "v"],
+              [j |-> 51, k |-> 120, what |-> "n"], [j |-> 102, k |-> 119, what |-> "n"] >>
+BigName(i) == "big-enum-" \o ToString(i)
+BigFaults == {BigName(i) : i \in DOMAIN BigEnums}
+BigEnumDef(b) == TEnum([i \in 1..120 |-> EItem(IF b.what = "n" /\ i = b.k THEN "e" \o ToString(b.j) ELSE "e" \o ToString(i),
+                                                IF b.what = "v" /\ i = b.k THEN b.j - 1 ELSE i - 1)], FALSE, <<>>)
 Faults == {"none", "dup-ident", "dup-ident-last", "dup-enum-name", "dup-enum-value", "dup-enum-name-ext", "dup-enum-value-ext", "dangling-ref"}
           \cup ImportFaults
 
@@ -47,7 +57,10 @@ SetTagging == /\ phase = "build" /\ Len(comps) >= 2
               /\ extAt' \in (IF kind = "SEQUENCE" THEN {0, 1} ELSE {0})
               /\ UNCHANGED <<kind, comps, fault, l>>
 \* (quick tier: the fault catalogue is applied to the two-component modules only)
-InjectFault == /\ phase = "tagged" /\ fault' \in (IF Rich \/ Len(comps) = 2 THEN Faults ELSE IF extAt # 0 THEN {"none", "dup-ident-last"} ELSE {"none"}) /\ phase' = "done"
+InjectFault == /\ phase = "tagged"
+               /\ fault' \in (IF Rich \/ Len(comps) = 2 THEN Faults ELSE IF extAt # 0 THEN {"none", "dup-ident-last"} ELSE {"none"})
+                              \cup (IF kind = "SEQUENCE" /\ Len(comps) = 2 /\ extAt = 0 /\ comps[1].t = comps[2].t THEN BigFaults ELSE {})
+               /\ phase' = "done"
                /\ UNCHANGED <<kind, comps, tagging, l, extAt>>
 Next == AddComponent \/ SetTagging \/ InjectFault
 
@@ -61,6 +74,7 @@ EnumDef == CASE fault = "dup-enum-name" -> TEnum(<<EItem("a", 0), EItem("b", 1),
              [] fault = "dup-enum-value" -> TEnum(<<EItem("a", 0), EItem("b", 1), EItem("c", 1)>>, FALSE, <<>>)
              [] fault = "dup-enum-name-ext" -> TEnum(<<EItem("a", 0), EItem("b", 1)>>, TRUE, <<EItem("c", 2), EItem("c", 3)>>)
              [] fault = "dup-enum-value-ext" -> TEnum(<<EItem("a", 0), EItem("b", 1)>>, TRUE, <<EItem("c", 5), EItem("d", 5)>>)
+             [] fault \in BigFaults -> BigEnumDef(BigEnums[CHOOSE i \in DOMAIN BigEnums : BigName(i) = fault])
              [] OTHER -> TEnum(<<EItem("a", 0), EItem("b", 1)>>, FALSE, <<>>)
 ModuleOf(cs) ==
   [name |-> "LG", tagging |-> tagging,
